@@ -52,7 +52,29 @@ ASSUMPTIONS = ['states are 0/1 values in int64 / int32 / uint8 / bool automata (
                'memoize=False, integer timesteps',
                'the continue/* bucket reads the private attribute rule._previous_state']
 
-_DT = {'int64': np.int64, 'int32': np.int32, 'uint8': np.uint8, 'bool': np.bool_, 'float64': np.float64}
+_DT = {'int64': np.int64, 'int32': np.int32, 'int8': np.int8, 'uint8': np.uint8, 'bool': np.bool_, 'float64': np.float64}
+# the rule NUMBER as the NumPy scalars that iterating np.arange(256) / an integer array gives ('int' = Python int)
+_RT = {'int': int, 'uint8': np.uint8, 'int64': np.int64, 'intp': np.intp, 'uint16': np.uint16, 'int32': np.int32}
+# Python-sequence forms of init_state (way 'list'); the unchanged library accepts every one of them
+# except floats (`^` raises TypeError -> lenient)
+_SEQ = {'list': lambda p: list(p), 'tuple': lambda p: tuple(p),
+        'list_npint64': lambda p: [np.int64(x) for x in p], 'list_npuint8': lambda p: [np.uint8(x) for x in p],
+        'list_npbool': lambda p: [np.bool_(x) for x in p], 'list_bool': lambda p: [bool(x) for x in p],
+        'tuple_npint64': lambda p: tuple(np.int64(x) for x in p), 'list_float': lambda p: [float(x) for x in p]}
+
+
+def _rule_number(c):
+    return _RT[c.get('rtype', 'int')](c['R'])
+
+
+def _vector(prev, pkind, readonly=False):
+    """a separate init_state object of the form `pkind` holding the values `prev`"""
+    if pkind in _SEQ:
+        return _SEQ[pkind](prev)
+    a = np.array(prev, dtype=_DT[pkind])
+    if readonly:
+        a.flags.writeable = False
+    return a
 
 
 def _bits(N):
@@ -193,6 +215,55 @@ def generate(rng, tier):
                'prev': [rng.randint(0, 1) for _ in range(N)], 'init': [rng.randint(0, 1) for _ in range(N)],
                'R': rng.choice([30, 90, 150, 37, rng.randrange(256), rng.randrange(256)]),
                'T': rng.choice([2, 3, rng.randint(2, 10)])}
+    # ---- paramtypes: the rule NUMBER as NumPy integer scalars, init_state in every accepted input form
+    #      (mirrors what the unchanged library does: all accepted, except float values -> TypeError and a
+    #      (1, n) matrix with n >= 2 -> IndexError, which are lenient); every rule number appears in quick
+    rtypes = ('uint8', 'int64', 'intp', 'uint16', 'int32')
+    forms = [('list', 'list'), ('list', 'tuple'), ('list', 'list_npint64'), ('list', 'list_npuint8'),
+             ('list', 'list_npbool'), ('list', 'list_bool'), ('list', 'tuple_npint64'),
+             ('array', 'int8'), ('array', 'int64'), ('array', 'uint8'), ('array', 'bool'),
+             ('array', 'ro_int64'), ('array', 'ro_uint8'), ('view', 'last'), ('view', 'last_roca'),
+             ('view', 'row2d'), ('array', 'float64'), ('list', 'list_float')]
+    j = 0
+    for rep_ in range(6 if thorough else 1):
+        for R in range(256):
+            for k in range(2):
+                way, form = forms[j % len(forms)]
+                rt = rtypes[(j // len(forms) + j) % len(rtypes)]
+                j += 1
+                N = (1 if rng.random() < 0.6 else rng.randint(2, 5)) if form == 'row2d' else rng.randint(1, 6)
+                T = rng.randint(3, 6)
+                H = rng.choice([1, 2, 3])
+                ca = [[rng.randint(0, 1) for _ in range(N)] for _ in range(H)]
+                prev = [rng.randint(0, 1) for _ in range(N)]
+                kind = 'paramtypes/run/%s/%s' % (rt, form)
+                if way == 'view':
+                    c = _run(kind, ca, 'view', R, T, row=H - 1)
+                    if form == 'last_roca':
+                        c['ca_readonly'] = True
+                    if form == 'row2d':
+                        c['row2d'] = True
+                elif form.startswith('ro_'):
+                    c = _run(kind, ca, 'array', R, T, prev=prev, pkind=form[3:])
+                    c['readonly'] = True
+                else:
+                    c = _run(kind, ca, way, R, T, prev=prev, pkind=form)
+                c['rtype'] = rt
+                yield c
+            # forward then backward with the same parameter forms (accepted forms only)
+            way, form = forms[(3 * R + rep_) % 13]
+            c = {'kind': 'paramtypes/retrace/%s/%s' % (rtypes[R % len(rtypes)], form if R % 4 else 'bview'),
+                 'op': 'retrace', 'R': R, 'T': rng.randint(2, 6), 'rtype': rtypes[R % len(rtypes)]}
+            N = rng.randint(1, 7)
+            c['prev'] = [rng.randint(0, 1) for _ in range(N)]
+            c['init'] = [rng.randint(0, 1) for _ in range(N)]
+            if R % 4 == 0:
+                c['bview'] = True
+            elif form.startswith('ro_'):
+                c['pkind'], c['readonly'] = form[3:], True
+            else:
+                c['pkind'] = form
+            yield c
     # ---- continue: evolve T1 steps, then T2 more with the SAME rule object; the rule's vector is observed
     for N in (1, 2):
         states = _bits(N)
@@ -217,14 +288,18 @@ def _vec(v):
 def _setup(c):
     """the caller's objects: (ca, obj or None, init_state)"""
     ca = np.array(c['ca'], dtype=_DT[c.get('dtype', 'int64')])
+    if c.get('ca_readonly'):
+        ca.flags.writeable = False
     way = c['way']
     if way == 'list':
-        obj = tuple(c['prev']) if c.get('pkind') == 'tuple' else list(c['prev'])
+        obj = _vector(c['prev'], c.get('pkind', 'list'))
         return ca, obj, obj
     if way == 'array':
-        obj = np.array(c['prev'], dtype=_DT[c.get('pkind', 'int64')])
+        obj = _vector(c['prev'], c.get('pkind', 'int64'), c.get('readonly', False))
         return ca, obj, obj
     if way == 'view':
+        if c.get('row2d'):          # ca[-1:], a (1, n) row matrix sharing the automaton's memory
+            return ca, None, ca[c['row']:c['row'] + 1]
         return ca, None, ca[c['row']]
     obj = np.array(c['other'], dtype=_DT[c.get('odtype', 'int64')])
     return ca, obj, obj[c['row']]
@@ -241,13 +316,21 @@ def _after(c, ca, obj):
 
 def run_impl(c):
     import cellpylib as cpl
-    R, T = c['R'], c['T']
+    R, T = _rule_number(c), c['T']
     if c['op'] == 'retrace':
+        pk = c.get('pkind', 'list')
+
         def go():
-            prev = list(c['prev'])
+            prev = _vector(c['prev'], pk, c.get('readonly', False))
             out1 = cpl.evolve(np.array([c['init']]), T, cpl.ReversibleRule(prev, R), r=1)
+            if c.get('bview'):
+                # the natural way back: the last two rows of the forward result, as VIEWS of it; the forward
+                # result is read off afterwards, so a write through the views shows up in out1
+                out2 = cpl.evolve(out1[-2:-1], T, cpl.ReversibleRule(out1[-1], R), r=1)
+                return [_ints(out1.tolist()), _ints(out2.tolist())]
             out1l = _ints(out1.tolist())
-            out2 = cpl.evolve(np.array([out1l[-2]]), T, cpl.ReversibleRule(np.array(out1l[-1]), R), r=1)
+            prev2 = _vector(out1l[-1], pk if 'pkind' in c else 'int64', c.get('readonly', False))
+            out2 = cpl.evolve(np.array([out1l[-2]]), T, cpl.ReversibleRule(prev2, R), r=1)
             return [out1l, _ints(out2.tolist())]
         return list(call_impl(go))
 
@@ -292,7 +375,10 @@ def _arg(c):
 
 
 def _lenient(c):
-    return 'float64' in (c.get('dtype'), c.get('pkind'), c.get('odtype'))
+    # outside the domain on the unchanged library: float values (`^` raises TypeError) and a (1, n) row matrix
+    # on a ring of n >= 2 cells (IndexError; a (1, 1) matrix on a one-cell ring IS accepted and is strict)
+    return ('float64' in (c.get('dtype'), c.get('pkind'), c.get('odtype')) or c.get('pkind') == 'list_float'
+            or (bool(c.get('row2d')) and len(c['ca'][0]) >= 2))
 
 
 def to_coq(c, obs):
